@@ -13,7 +13,7 @@ EXPLANATION = ("Structural rules over the typed HIR of the ID allocator and of e
                "the freshly updated candidate is not in the in-use set; N4 the same candidate is stored, inserted and "
                "returned; N5 who-may-touch: counter writes (through any alias of the place: `guard.0`, a destructured or re-borrowed guard) and set inserts only in the allocator - a store in the driver loop is accepted only when its arm's paths show it writes back the counter's own current value -, allocator called only "
                "from the operation issue point whose request tuple carries that value, set removals only in the driver "
-               "loop; N6 on every enumerated path of a select! arm a release comes with the un-routing of the same ID (or is the Abandon "
+               "loop - a `retain` is judged by the removals it amounts to: in the driver loop named IDs only, anywhere else none at all, a predicate about an ID's magnitude being decided against the allocator's own invariant (every member is in 1..=i32::MAX; used only when N2 / N4 / N8 and the other N5 obligations establish it on the analysed tree) -; N6 on every enumerated path of a select! arm a release comes with the un-routing of the same ID (or is the Abandon "
                "request's own, never-answered ID). Not decided: the arithmetic of 2^31 wrap-around as a runtime fact "
                "beyond this shape; scheduler interleavings (the single Mutex critical section is the argument).")
 TRUSTED = ['std::sync::Mutex mutual exclusion', 'std HashSet semantics']
@@ -168,6 +168,7 @@ def run(ctx):
                 for a in cands:
                     if ((a.get('adj_ty') or a.get('ty') or '').startswith('&mut') or (a.get('ty') or '').startswith('&mut')) and C.is_counter_place(a, B):
                         ctx.fail('N5.counter-write', path + '|escapes', loc(n), 'a mutable reference to the ID counter is handed to `%s` outside the allocator' % (callee_of(n) or '?').rsplit('::', 1)[-1])
+    retains = []
     for path, h in f.hir.items():
         for n, c in walk(h['body']):
             if n['k'] == 'Assign' or n['k'] == 'AssignOp':
@@ -182,24 +183,8 @@ def run(ctx):
                     ctx.add('N5.remove-owner', path, loc(n), path == C.loop_path, 'release of an ID outside the driver loop')
                 elif m in ('contains', 'len', 'is_empty'):
                     ctx.ok('N5.read', path + '|' + m, loc(n))
-                elif m == 'retain' and path == C.loop_path:
-                    # a retain is the removals it amounts to (absx): accepted when, on every path of its arm, it removes named IDs only
-                    # - an element different from all of them is certainly kept; which IDs those are is N6's / C13's question
-                    import driver as drv
-                    wipes = named = 0
-                    for role, a in C.arms.items():
-                        if isinstance(a, dict) and any(x is n for x, _ in walk(a['body'])):
-                            for o in drv.arm_paths(C, role)[0]:
-                                for e in o.st.ev:
-                                    if e[0] == 'call' and e[3] is n:
-                                        if e[1].endswith('::clear'):
-                                            wipes += 1
-                                        elif e[1].endswith('::remove'):
-                                            named += 1
-                                        else:
-                                            wipes += 1      # left opaque: the predicate is not a function of equality tests
-                    ctx.add('N5.set-method', path + '|' + m, loc(n), named > 0 and wipes == 0,
-                            '`retain` on the in-use set does not amount to releasing named IDs only: IDs of other operations still outstanding can be released')
+                elif m == 'retain':
+                    retains.append((path, h, n))        # judged below by what it does (the removals it amounts to)
                 else:
                     ctx.fail('N5.set-method', path + '|' + m, loc(n), 'unexpected method `%s` on the in-use set' % m)
             # guard passed around as a whole (escapes the analysis)
@@ -209,6 +194,50 @@ def run(ctx):
                     if anchors.is_idguard(pa.get('ty')) or C.is_idset_place(pa):
                         if not (n['k'] == 'MethodCall' and C.is_idset_place(n['recv'])) and not (callee_of(n) or '').endswith('mem::drop'):
                             ctx.fail('N5.guard-escapes', path, loc(n), 'the ID-table guard or set is passed to another function')
+    # `retain(pred)` on the in-use set is the removals it amounts to (absx): `remove(x)` for every x the predicate certainly rejects,
+    # `clear` when an element different from all of those is not certainly kept, nothing when it certainly keeps every member.
+    # What "every member" can be is the allocator's own invariant J: the counter is in 0..=MAX and the set within 1..=MAX, because
+    #   - the table starts as (0, empty)                                                         N2.table-init
+    #   - a search starts at the counter, a candidate equal to MAX is followed by 1 and any other candidate c (0 <= c < MAX) by
+    #     c + 1: every candidate is in 1..=MAX                                                   N2.init-from-counter / wrap / step
+    #   - the only value inserted, and the only value stored to the counter, is the candidate returned      N4, N8
+    #   - nobody else stores to the counter (a write-back of its own value aside), inserts, overwrites the table or gets hold of
+    #     the guard / the set                                    N5.counter-write / insert-owner / table-overwrite / guard-escapes
+    # and removals only shrink the set.  J is used only when every one of these obligations holds on the analysed tree; otherwise
+    # nothing is assumed about the members and a predicate that tests their magnitude is not decided (the retain is a violation).
+    # In the driver loop a retain may release named IDs (which ones: N6 / C13); anywhere else nobody owns an ID to release, so it
+    # must amount to no removal at all - `retain(|&id| id > 0)` does, `retain(|&id| id > 1)` releases ID 1 under its owner's feet.
+    J_RULES = ('N2.', 'N4.', 'N8.', 'N5.counter-write', 'N5.insert-owner', 'N5.table-overwrite', 'N5.guard-escapes')
+    j_holds = all(o.ok for o in ctx.obls if o.rule.startswith(J_RULES)) and any(o.rule.startswith('N4.single-insert') for o in ctx.obls)
+    ctx.idset_member_range = (1, MAX) if j_holds else None          # for the other readers of the arms' paths (driver.idset_member_range)
+    member_range = lambda node: (1, MAX) if j_holds and node.get('k') == 'MethodCall' and C.is_idset_place(node['recv']) else None
+    for path, h, n in retains:
+        kept = named = wipes = 0
+        try:
+            if path == C.loop_path:
+                role = arm_node_role.get(id(n))
+                pouts = drv.arm_paths(C, role, member_range=member_range)[0] if role is not None else []
+            else:
+                pouts = sem.paths(f, C.alloc if path == C.alloc_path else hirq.Body(f, h), combinators=True, member_range=member_range)[0]
+        except absx.TooManyPaths:
+            pouts = []          # not enumerable: no event is seen below and the obligation fails
+        for o in pouts:
+            for e in o.st.ev:
+                if len(e) > 3 and e[3] is n:
+                    if e[0] == 'kept-all':
+                        kept += 1
+                    elif e[0] == 'call' and e[1].endswith('::remove'):
+                        named += 1
+                    else:
+                        wipes += 1      # `clear`, or left opaque: the predicate is not a function of equality / decided magnitude tests
+        if path == C.loop_path:
+            ctx.add('N5.set-method', path + '|retain', loc(n), named + kept > 0 and wipes == 0,
+                    '`retain` on the in-use set does not amount to releasing named IDs only: IDs of other operations still outstanding can be released')
+        else:
+            ctx.add('N5.set-method', path + '|retain', loc(n), kept > 0 and named == 0 and wipes == 0,
+                    '`retain` on the in-use set outside the driver loop %s: an ID still outstanding is released by someone who is not its owner'
+                    % ('lies on no enumerated path of its function (not analysed)' if kept + named + wipes == 0 else
+                       'does not certainly keep every ID the allocator can have put there (1..=%d%s)' % (MAX, '' if j_holds else '; not established on this tree: see the other N2 / N4 / N5 / N8 violations')))
     callers = hirq.all_calls(f, lambda c: c == C.alloc_path)
     ctx.add('N5.alloc-callers.count', C.alloc_path, '', len(callers) >= 1, 'allocator is never called')
     for path, n, c in callers:
